@@ -174,7 +174,13 @@ def strategy(draw, tier="quick"):
         cfg["ow"] = draw(_widths1)
     hi = 40 if tier == "quick" else 120
     hist = draw(_history(ncallers, ntargets, 8, hi))
-    return {"comp": comp, "cfg": cfg, "nc": ncallers, "nt": ntargets, "history": hist}
+    case = {"comp": comp, "cfg": cfg, "nc": ncallers, "nt": ntargets, "history": hist}
+    if comp == "MethodTryProduct" and cfg["combiner"] and draw(st.booleans()):
+        # a rival transaction (outside the product) also calls target 0: in a cycle it is served, the product must
+        # report that its own call of target 0 did NOT succeed
+        cfg["rival"] = True
+        case["rival"] = [draw(st.integers(0, 1)) for _ in hist]
+    return case
 
 
 def _all_valuations(callers, targets):
@@ -258,6 +264,33 @@ def _make_nonexclusive(iw, ow, callers):
             m.submodules.target = self.target
             for i, c in enumerate(self.method):
                 m.submodules[f"caller{i}"] = c
+            return m
+
+    return Circuit()
+
+
+def _make_tryproduct_rival(iw, ows, combiner):
+    from amaranth import Elaboratable, Signal
+    from transactron import TModule, Transaction
+    from transactron.core import Methods, Method, Required
+    from transactron.lib import MethodTryProduct
+
+    class Circuit(Elaboratable):
+        method: Method
+        targets: Required[Methods]
+
+        def __init__(self):
+            self.tr = MethodTryProduct(_lay(iw), [_lay(o) for o in ows], combiner)
+            self.method = self.tr.method
+            self.targets = self.tr.targets
+            self.rival_en = Signal()
+            self.rival_arg = Signal(iw[0])
+
+        def elaborate(self, platform):
+            m = TModule()
+            m.submodules.tr = self.tr
+            with Transaction(name="rival").body(m, ready=self.rival_en):
+                self.targets[0](m, {"f0": self.rival_arg, **{f"f{i}": 0 for i in range(1, len(iw))}})
             return m
 
     return Circuit()
@@ -387,7 +420,11 @@ def run_case(case) -> Result:
                 if cfg["combiner"]
                 else None
             )
-            make = lambda: MethodTryProduct(_lay(iw), [_lay(o) for o in ows], combiner)  # noqa: E731
+            if cfg.get("rival"):
+                make = lambda: _make_tryproduct_rival(iw, ows, combiner)  # noqa: E731
+                res.labels.append("MethodTryProduct:rival")
+            else:
+                make = lambda: MethodTryProduct(_lay(iw), [_lay(o) for o in ows], combiner)  # noqa: E731
         cnames, tnames = ["method"], ["targets"]
         cwid, twid = [iw], [(iw, o) for o in ows]
         res.labels.append(f"{comp}:n={nt},combiner={int(cfg['combiner'])}")
@@ -444,6 +481,18 @@ def run_case(case) -> Result:
                 tret.append(r)
                 if rdy:
                     reqs[name] = r
+            state["rival"] = None
+            if cfg.get("rival") and not drain:
+                ren = case["rival"][cyc] if cyc < len(case["rival"]) else 0
+                # an argument that differs from the product caller's, so that the target's caller can be told apart
+                base = cargs[0]["f0"] if cargs[0] is not None else 0
+                rarg = (base + 1) & _mask(cfg["iw"][0])
+                if rarg == base:
+                    ren = 0
+                ctx.set(h.dut.rival_en, ren)
+                ctx.set(h.dut.rival_arg, rarg)
+                if ren:
+                    state["rival"] = {"f0": rarg, **{f"f{i}": 0 for i in range(1, len(cfg["iw"]))}}
             results, _ = await step(ctx, ios, reqs)
             res.stats["cycles"] = res.stats.get("cycles", 0) + 1
             cres = [results[n] for n, _ in cios]
@@ -635,20 +684,34 @@ def _check_MethodTryProduct(cfg, py, state, cargs, cres, trdy, tret, tgot, flag,
         return f"requested={req} but accepted={acc} (the method must never block on its targets)"
     if req:
         flag("req_all_ready" if all(trdy) else "req_mixed_ready" if any(trdy) else "req_none_ready")
+    rival = state.get("rival")
+    called = []  # targets really called BY THE PRODUCT this cycle
     for k, g in enumerate(tgot):
+        if k == 0 and rival is not None:
+            # target 0 is contended: it serves the rival or the product (either is fine) when ready
+            if (g is not None) != trdy[0]:
+                return f"target 0: ready={trdy[0]}, rival and/or product request it, but called={g is not None}"
+            if g is not None and g != rival and not (acc and g == cargs[0]):
+                return "target 0 received an argument nobody passed"
+            by_product = g is not None and acc and g == cargs[0]
+            if g is not None:
+                flag("rival_served" if not by_product else "rival_lost")
+            called.append(by_product)
+            continue
         if (g is not None) != (acc and trdy[k]):
             return f"target {k}: ready={trdy[k]}, method accepted={acc}, but called={g is not None}"
         if g is not None and g != cargs[0]:
             return f"target {k} received a different argument"
+        called.append(g is not None)
     if acc:
         if cfg["combiner"]:
-            succ = sum(1 << k for k, r in enumerate(trdy) if r)
-            val = sum(r["f0"] for k, r in enumerate(tret) if trdy[k]) & _mask(cfg["cw"])
+            succ = sum(1 << k for k, c in enumerate(called) if c)
+            val = sum(r["f0"] for k, r in enumerate(tret) if called[k]) & _mask(cfg["cw"])
             exp = {"succ": succ, "val": val}
         else:
             exp = {}
         if cres[0] != exp:
-            return f"caller received {cres[0]}, expected {exp}"
+            return f"caller received {cres[0]}, expected {exp} (targets called by the product: {called})"
     return None
 
 
